@@ -5,7 +5,7 @@
 // scanned again, so a row computed from an overwritten predecessor must never survive).
 #[cfg(kani)]
 mod verif_kani_rowpush {
-    //@@ span parser/src/earley/parser.rs row_store :: let idx = self.num_rows(); let row = self.scratch.work_row(lex_start); ::: self.rows_valid_end = idx + 1;
+    //@@ span parser/src/earley/parser.rs row_store :: let idx = self.num_rows(); let row = self.scratch.work_row(lex_start); ::: @before if self.scratch.definitive {
 
     struct ShimScratch {
         next: u32,
